@@ -13,7 +13,7 @@ import (
 
 // newStreamEmit: the new_stream emit site.
 func (c *Ctx) newStreamEmit() *EmitSite {
-	for _, e := range c.realEmitSites() {
+	for _, e := range c.emitSeq() {
 		if e.Kind == "ClientToServer_NewStream" && e.Send != nil {
 			return e
 		}
@@ -670,20 +670,8 @@ func (c *Ctx) guaranteedClosed(fr FieldRef) (bool, string) {
 		if fn == a.ClientFinish {
 			return true, "closed by the client finishing function"
 		}
-		if fn.Parent() != nil && fn.Parent().Name() == w.mName("close") {
-			once := false
-			allInstrs(fn.Parent(), func(in ssa.Instruction) {
-				if ci, ok := in.(*ssa.Call); ok && calleeName(ci) == "(*sync.Once).Do" {
-					for _, arg := range ci.Call.Args {
-						if mc, ok := arg.(*ssa.MakeClosure); ok && mc.Fn == fn {
-							once = true
-						}
-					}
-				}
-			})
-			if once {
-				return true, "closed by the receiver's close() (sync.Once)"
-			}
+		if w.onlyViaOnce(fn, 0) && c.reachedFromReceiverClose(fn) {
+			return true, "closed by the receiver's close() (sync.Once)"
 		}
 	}
 	return false, ""
@@ -1466,4 +1454,31 @@ func (c *Ctx) isTableRemoval(in ssa.Instruction, table, idf FieldRef) bool {
 		}
 	})
 	return deletes && isID(ci.Common().Args[1])
+}
+
+// reachedFromReceiverClose: fn is reached (same goroutine, incl. sync.Once functions) from a receiver's close method.
+func (c *Ctx) reachedFromReceiverClose(fn *ssa.Function) bool {
+	r := c.receivers()
+	for _, cl := range append(append([]*ssa.Function{}, r.closeFn...), r.pClose...) {
+		if c.W.sameGoroutineReach(cl, nil)[fn] != nil {
+			return true
+		}
+		// bound-method value handed to Once.Do: the call graph edge goes through the synthetic wrapper
+		if n := c.W.CG.Nodes[fn]; n != nil {
+			for _, e := range n.In {
+				if e.Caller != nil && e.Caller.Func != nil && strings.Contains(e.Caller.Func.Synthetic, "bound method wrapper") {
+					found := false
+					allInstrs(cl, func(in ssa.Instruction) {
+						if mc, ok := in.(*ssa.MakeClosure); ok && mc.Fn == ssa.Value(e.Caller.Func) {
+							found = true
+						}
+					})
+					if found {
+						return true
+					}
+				}
+			}
+		}
+	}
+	return false
 }
